@@ -1477,3 +1477,22 @@ Proof.
   unfold fs_changed. rewrite O, R, S, P. simpl.
   destruct st1 as [h0|]; [|reflexivity]. destruct (Nat.eqb_spec h0 h); subst; reflexivity.
 Qed.
+
+(** ** instances of the loop theorems for the tree as it is *)
+Theorem reload_run_alive_now c st is : exists st', reload_run c all_fixes st is = Alive st'.
+Proof. apply reload_run_alive; reflexivity. Qed.
+
+Theorem reload_run_last_good_now c st bad i st' :
+  load c all_fixes i = Ok st' -> reload_run c all_fixes st (bad ++ [i]) = Alive st'.
+Proof. intros. apply reload_run_last_good; auto. Qed.
+
+Theorem fs_run_alive_now st es : exists st', fs_run all_fixes st es = Alive st'.
+Proof. apply fs_run_alive. reflexivity. Qed.
+
+Theorem fs_run_last_good_now st es e h :
+  op_class all_fixes (fe_bits e) = FsWrite -> fe_read e = RdParsed h -> fe_stat_ok e = true -> fe_proc_ok e = true ->
+  fs_run all_fixes st (es ++ [e]) = Alive (Some h).
+Proof. intros. apply fs_run_last_good; auto. Qed.
+
+Theorem request_panic_non_success h k : h = Panicked k -> success (recovery_mw h) = false.
+Proof. exact (proj2 (request_panic_is_non_success h) k). Qed.
